@@ -2786,16 +2786,12 @@ impl Server {
         
         match self.storage.ttl(db, key)? {
             Some(duration) => {
-                // Use ceiling calculation to match Redis behavior for TTL
-                let remaining_seconds: i64 = if duration.as_secs() == 0 && duration.subsec_millis() == 0 {
-                    -2 // Key expired
-                } else if duration.as_secs() == 0 && duration.subsec_millis() > 0 {
-                    1 // Less than 1 second remaining, round up to 1
+                // Whole seconds, rounded up: a key that is still there never reports 0 or -2
+                let remaining_seconds: i64 = if duration.is_zero() {
+                    -2 // Deadline reached
                 } else {
-                    // Use ceiling to ensure we don't underestimate remaining time
                     let secs = duration.as_secs();
-                    let nanos = duration.subsec_nanos();
-                    if nanos > 0 {
+                    if duration.subsec_nanos() > 0 {
                         (secs + 1) as i64 // Round up if there are any fractional seconds
                     } else {
                         secs as i64
